@@ -5,11 +5,6 @@ Import ListNotations.
 Ltac Zify.zify_post_hook ::= Z.to_euclidean_division_equations.
 Local Open Scope nat_scope.
 
-Section FrameProofs.
-  Variable enc dec : list N -> list N -> list N.
-  Variable mac : list N -> list N -> list N.
-  Hypothesis enc_len : forall k b, length (enc k b) = 16.
-  Hypothesis mac_len : forall k m, length (mac k m) = 16.
 
   Lemma mhdr_spec t : mhdr_of t = spec_mhdr t.
   Proof. destruct t; reflexivity. Qed.
@@ -49,6 +44,41 @@ Section FrameProofs.
 
   Lemma nblocks_succ n : 0 < n -> nblocks n = S (nblocks (n - 16)).
   Proof. unfold nblocks. intros. lia. Qed.
+
+  (* ------------------------------------------------------------------ data frames *)
+  Definition head_of (d : data_frame) (port : list N) : list N :=
+    [mhdr_of (df_type d)] ++ le_bytes 4 (df_addr d) ++ [fctrl_of d]
+    ++ le_bytes 2 (df_fcnt d mod 65536) ++ df_f_opts d ++ port.
+
+  Lemma head_shape d port : head_of d port
+    = mhdr_of (df_type d) :: le_bytes 4 (df_addr d) ++ ([fctrl_of d] ++ le_bytes 2 (df_fcnt d mod 65536) ++ df_f_opts d ++ port).
+  Proof. reflexivity. Qed.
+
+  Lemma head_length d port : length (head_of d port) = 8 + length (df_f_opts d) + length port.
+  Proof. unfold head_of. rewrite !app_length, !le_bytes_length. cbn. lia. Qed.
+
+  Lemma spec_msg_head d port rest : length (df_f_opts d) <= 15 ->
+    spec_msg d (port ++ rest) = head_of d port ++ rest.
+  Proof.
+    intros H. unfold spec_msg, head_of. rewrite <- mhdr_spec, <- fctrl_spec by exact H.
+    repeat rewrite <- app_assoc. reflexivity.
+  Qed.
+
+
+  Lemma map_blocks_ecb f (l : list N) : length l = 16 \/ length l = 32 -> map_blocks f 2 l = ecb f l.
+  Proof.
+    intros [H|H]; unfold ecb; rewrite H; cbn [Nat.div Nat.divmod fst map_blocks].
+    - rewrite H. cbn [Nat.ltb Nat.leb]. rewrite skipn_length, H. cbn [Nat.sub Nat.ltb Nat.leb].
+      rewrite (skipn_all2 l) by lia. apply app_nil_r.
+    - rewrite H. cbn [Nat.ltb Nat.leb]. rewrite skipn_length, H. cbn [Nat.sub Nat.ltb Nat.leb].
+      rewrite (skipn_all2 (skipn 16 l)) by (rewrite skipn_length; lia). rewrite app_nil_r. reflexivity.
+  Qed.
+
+Section FrameProofs.
+  Variable enc dec : list N -> list N -> list N.
+  Variable mac : list N -> list N -> list N.
+  Hypothesis enc_len : forall k b, length (enc k b) = 16.
+  Hypothesis mac_len : forall k m, length (mac k m) = 16.
 
   Lemma flat_map_enc_length key (g : nat -> list N) s k :
     length (flat_map (fun i => enc key (g i)) (seq s k)) = 16 * k.
@@ -116,25 +146,6 @@ Section FrameProofs.
   Proof.
     intros msg Hl. unfold calculate_data_mic. rewrite lenN_small_mod by exact Hl.
     subst msg. rewrite helper_block_spec. reflexivity.
-  Qed.
-
-  (* ------------------------------------------------------------------ data frames *)
-  Definition head_of (d : data_frame) (port : list N) : list N :=
-    [mhdr_of (df_type d)] ++ le_bytes 4 (df_addr d) ++ [fctrl_of d]
-    ++ le_bytes 2 (df_fcnt d mod 65536) ++ df_f_opts d ++ port.
-
-  Lemma head_shape d port : head_of d port
-    = mhdr_of (df_type d) :: le_bytes 4 (df_addr d) ++ ([fctrl_of d] ++ le_bytes 2 (df_fcnt d mod 65536) ++ df_f_opts d ++ port).
-  Proof. reflexivity. Qed.
-
-  Lemma head_length d port : length (head_of d port) = 8 + length (df_f_opts d) + length port.
-  Proof. unfold head_of. rewrite !app_length, !le_bytes_length. cbn. lia. Qed.
-
-  Lemma spec_msg_head d port rest : length (df_f_opts d) <= 15 ->
-    spec_msg d (port ++ rest) = head_of d port ++ rest.
-  Proof.
-    intros H. unfold spec_msg, head_of. rewrite <- mhdr_spec, <- fctrl_spec by exact H.
-    repeat rewrite <- app_assoc. reflexivity.
   Qed.
 
   (* body and MIC for a given port byte / payload / encryption key *)
@@ -329,17 +340,9 @@ Section FrameProofs.
     | Some (CfFixed mask) => length mask = 9
     end.
 
-  Lemma map_blocks_ecb f (l : list N) : length l = 16 \/ length l = 32 -> map_blocks f 2 l = ecb f l.
-  Proof.
-    intros [H|H]; unfold ecb; rewrite H; cbn [Nat.div Nat.divmod fst map_blocks].
-    - rewrite H. cbn [Nat.ltb Nat.leb]. rewrite skipn_length, H. cbn [Nat.sub Nat.ltb Nat.leb].
-      rewrite (skipn_all2 l) by lia. apply app_nil_r.
-    - rewrite H. cbn [Nat.ltb Nat.leb]. rewrite skipn_length, H. cbn [Nat.sub Nat.ltb Nat.leb].
-      rewrite (skipn_all2 (skipn 16 l)) by (rewrite skipn_length; lia). rewrite app_nil_r. reflexivity.
-  Qed.
 
-  Lemma flat_map_le3_length (l : list N) : length (flat_map (le_bytes 3) l) = 3 * length l.
-  Proof. induction l as [|x l IH]; cbn [flat_map length]; [reflexivity|]. rewrite app_length, le_bytes_length, IH. lia. Qed.
+
+
 
   Theorem build_join_accept_spec jn nid da dls rxd c key buf :
     wf_cflist c ->
